@@ -99,7 +99,11 @@ func (oracleC06) Step(x *OCtx, t *Trans) []Violation {
 		name := x.Sc.ctxName(id)
 		advanced := qc.BatchCounter > pc.BatchCounter
 		paused := stName(pc.State) == "running" && stName(qc.State) == "paused"
-		if !advanced && !paused {
+		due := false
+		if h, ok := t.Pre.NewH[id]; ok && h == H && stName(pc.State) == "running" {
+			due = true // a batch of this running context is scheduled for this very block
+		}
+		if !advanced && !paused && !due {
 			continue
 		}
 		d := refDecision(t.Post, pc, t.Pre, func(p []byte) uint64 { return storedVolume(t.Pre, pc.Consumer, pc.ServiceName, p) }, balOf(pc.Consumer))
@@ -114,6 +118,8 @@ func (oracleC06) Step(x *OCtx, t *Trans) []Violation {
 			observed = "pause"
 		case advanced && len(reqs) > 0:
 			observed = "issue"
+		case !advanced && !paused:
+			observed = "nothing"
 		}
 		if observed != d.Kind {
 			add("batch-decision-follows-eligibility-threshold-and-balance", fmt.Sprintf("%s/want=%s/got=%s", name, d.Kind, observed),
